@@ -17,7 +17,7 @@ ID = "C03"
 LEVEL = "model_checking"
 RULE = (
     "16 / 17 / 33 reference instances (thorough 14..69) with 1-2 overlapping predictions each x {IoU,Dice,ASSD}; all contingency tables CT(2,2,2), CT(3,2,1), CT(2,3,1) (thorough: + CT(3,3,1), CT(2,2,3)) x {IoU,Dice}, all pairs of G1(5,2) x 27 refs and "
-    "G2(2,3,2) x 16 refs (thorough: G1(6,2) x 81, G2(2,3,2) x 64) x ASSD; x every threshold class (exact hits, gaps, beyond ends) x allow_many_to_one in {F,T}. "
+    "G2(2,3,2) x 16 refs (thorough: G1(6,2) x 81, G2(2,3,2) x 64) x ASSD; x every threshold class (exact hits, gaps, beyond ends) x allow_many_to_one in {F,T}; histories: every third table of CT(2,2,2) (thorough: all) with a partner table - the two pair objects live through a sequence of 6 matcher configurations (IoU, Dice, ASSD, IoU m2o, Dice m2o, IoU) x every threshold class, each matcher object used on pair i, pair j, pair i. "
     "non-trivial = at least two eligible candidate pairs compete for one partner at some threshold; distinct by overlap structure"
 )
 ASSUMPTIONS = [
@@ -36,6 +36,10 @@ def blocks(tier):
         n = sc.ct_count(P, R, c)
         for lo, hi in sc.ranges(n, 250):
             B.append(("ct", P, R, c, lo, hi))
+    # histories: the same pair objects and the same matcher object are used repeatedly (metric / threshold / option changes between uses)
+    n222 = sc.ct_count(2, 2, 2)
+    for lo, hi in sc.ranges(n222 if tier == "thorough" else n222 // 3, 60):
+        B.append(("reuse", tier, lo, hi))
     for n in ((16, 17, 33) if tier == "quick" else tuple(range(14, 70))):
         B.append(("many", n))
     geo = [((5,), 2, 27), ((2, 3), 2, 16)] if tier == "quick" else [((6,), 2, 81), ((2, 3), 2, 64), ((2, 2, 2), 2, 16)]
@@ -75,6 +79,11 @@ def run_block(block, acc):
         p, r = many_arrays(block[1])
         for metric in ("IOU", "DSC", "ASSD"):
             run_case({"kind": "arr", "pred": sc.arr_to_case(p), "ref": sc.arr_to_case(r), "metric": metric, "many": block[1]}, acc)
+        return
+    if block[0] == "reuse":
+        _, tier, lo, hi = block
+        for q in range(lo, hi):
+            run_case({"kind": "reuse", "i": q if tier == "thorough" else 3 * q + 1}, acc)
         return
     if block[0] == "ct":
         _, P, R, c, lo, hi = block
@@ -195,7 +204,71 @@ def thresholds_for(rp, metric, acc=None, pairs=None, shape=None):
     return keep
 
 
+REUSE_SEQ = (("IOU", False), ("DSC", False), ("ASSD", False), ("IOU", True), ("DSC", True), ("IOU", False))
+
+
+def _reuse_case(case, acc):
+    """one UnmatchedInstancePair object per table (i and a partner table j) lives through the whole case and is handed to a
+    sequence of matchers of changing metric / threshold / many-to-one; each matcher object is used on pair i, pair j and pair i
+    again. Every single result must pass the validity checker for its own configuration."""
+    n = sc.ct_count(2, 2, 2)
+    i = case["i"]
+    acc.case("reuse", i)
+    tabs = []
+    for t in (i, (i * 7 + 3) % n):
+        pred, ref = sc.ct_arrays(sc.ct_table(t, 2, 2, 2))
+        pv, rv = rm.voxsets(pred), rm.voxsets(ref)
+        if not pv or not rv:
+            continue
+        plabs, rlabs = sorted(pv), sorted(rv)
+        tabs.append(dict(t=t, pred=pred, ref=ref, plabs=plabs, rlabs=rlabs, rp=rm.RefPair([pv[l] for l in plabs], [rv[l] for l in rlabs]), up=UnmatchedInstancePair(pred.copy(), ref.copy())))
+    if not tabs:
+        acc.count("skipped_empty_side")
+        return
+    if len(tabs) == 1:
+        tabs = tabs * 2
+    acc.nontriv("reuse", i)
+    for step, (metric, m2o) in enumerate(REUSE_SEQ):
+        keeps = [thresholds_for(T["rp"], metric, None, shape=T["pred"].shape) for T in tabs]
+        thrs = []
+        for t in keeps[0]:
+            # a threshold of table i is used on table j only if it is not an unguarded near-hit of one of j's scores
+            sj = [tabs[1]["rp"].score(metric, p, r) for p, r in tabs[1]["rp"].cands]
+            if any(rm.close(t, s_) for s_ in sj) and t not in keeps[1]:
+                continue
+            thrs.append(t)
+        for thr in thrs:
+            try:
+                M = make_matcher(["thr", metric, thr, m2o])
+            except Exception as e:
+                acc.violation(f"C03:reuse:raised:{type(e).__name__}", {**case, "step": step, "thr": thr}, f"matcher construction raised {e!r}")
+                continue
+            for use, T in enumerate((tabs[0], tabs[1], tabs[0])):
+                c2 = {**case, "step": step, "metric": metric, "thr": thr, "m2o": m2o, "use": use}
+                tag = f"history step {step} ({metric}, thr={thr}, many_to_one={m2o}), use {use} of the matcher object on table {T['t']} (pair object reused since step 0)"
+                acc.step()
+                try:
+                    out = M.match_instances(T["up"])
+                except Exception as e:
+                    acc.violation(f"C03:reuse:raised:{type(e).__name__}", c2, f"{tag}: match_instances raised {e!r}")
+                    continue
+                if not (np.array_equal(T["up"].prediction_arr, T["pred"]) and np.array_equal(T["up"].reference_arr, T["ref"])):
+                    acc.count("reuse_input_pair_modified")
+                    T["up"] = UnmatchedInstancePair(T["pred"].copy(), T["ref"].copy())
+                acc.state("reuse", T["t"], metric, thr, m2o, out.prediction_arr)
+                asg, split = read_assignment(T["pred"], T["ref"], out.prediction_arr, set(T["rlabs"]))
+                if split:
+                    acc.violation("C03:reuse:prediction_split", c2, f"{tag}: predictions {split} carry more than one label after matching")
+                    continue
+                ok, pairs = judge_assignment(acc, c2, tag, T["rp"], T["plabs"], T["rlabs"], asg, metric, thr, m2o, sigp="C03:reuse")
+                acc.outcome(sorted(pairs))
+                if ok:
+                    acc.ok()
+
+
 def run_case(case, acc):
+    if case["kind"] == "reuse":
+        return _reuse_case(case, acc)
     pred, ref = arrays_of(case)
     metric = case["metric"]
     acc.case(case["kind"], case.get("P"), case.get("R"), case.get("c"), case.get("i"), case.get("shape"), case.get("pi"), case.get("ri"), case.get("many"), metric)
